@@ -26,7 +26,7 @@ FUNCTIONS = [
 T = lambda cls, *fs: ("tree", cls, list(fs))  # noqa: E731
 LEAF1 = T(["VLeaf"], ("v", ("val", ("re", "1$")), None))
 LEAFCAP = T(["VLeaf"], ("v", None, "x"))
-TREE_VALUES = [T(["VLeaf"]), T("*"), T(["VBase"]), T(["VLeaf", "VStr2"]), T(["VSubLeaf"]), LEAF1, LEAFCAP, T(["VMany"], ("items", ("seq", [], ("*", None)), None))]
+TREE_VALUES = [T(["VLeaf"]), T("*"), T(["VBase"]), T(["VLeaf", "VStr2"]), T(["VSubLeaf"]), T(["VSubLeaf", "VLeaf"]), T(["VSubLeaf", "VStr2", "VBase"]), LEAF1, LEAFCAP, T(["VMany"], ("items", ("seq", [], ("*", None)), None))]
 VALUES = [("none",), ("re", "1"), ("re", ".*2$"), ("re", "VLeaf")] + TREE_VALUES
 SEQ_ELEMS = [T(["VLeaf"]), T("*"), LEAF1, ("none",)]
 
@@ -55,7 +55,7 @@ def seq_specs() -> list[tuple]:
 
 def single_field_patterns() -> list[tuple]:
     pats = []
-    for cls in (["VMixed"], "*", ["VBase"], ["VMixed", "VLeaf"], ["VInh"]):
+    for cls in (["VMixed"], "*", ["VBase"], ["VMixed", "VLeaf"], ["VInh"], ["VInh", "VMixed"], ["VSubLeaf", "VLeaf", "VInh", "VBase"]):
         for s in seq_specs():
             for cap in (None, "c"):
                 pats.append(T(cls, ("items", s, cap)))
